@@ -30,6 +30,7 @@ type ExecCall struct {
 	Call   Call   `json:"call"`
 	UpdOpt *bool  `json:"update_option,omitempty"`
 	Fail   string `json:"fail,omitempty"` // "" | invalid | matcher : the call is built to fail before the comparison
+	Skip   string `json:"skip,omitempty"` // Skip | Skipf | SkipNow : instead of a Match* call the test calls snaps.Skip* (always its last step)
 }
 
 type Exec struct {
@@ -129,6 +130,9 @@ type histOpts struct {
 	failing    bool
 	updOptions bool
 	ci         bool
+	uniqueExec bool // every process executes a test at most once (so that -count=1 describes it)
+	skips      bool // executions may end with a snaps.Skip* call
+	blocked    bool // extra calls through a config whose directory cannot be created
 }
 
 func genHistory(t *rapid.T, col *collector, ho histOpts) histCase {
@@ -177,6 +181,9 @@ func genHistory(t *rapid.T, col *collector, ho histOpts) histCase {
 		}
 		c.Extra = append(c.Extra, es)
 	}
+	if ho.blocked && rapid.IntRange(0, 2).Draw(t, "blocked") == 0 {
+		c.Blocked = true
+	}
 	nprocs := rapid.IntRange(1, ho.maxProcs).Draw(t, "nprocs")
 	for p := 0; p < nprocs; p++ {
 		pr := Proc{}
@@ -192,8 +199,15 @@ func genHistory(t *rapid.T, col *collector, ho histOpts) histCase {
 			}
 		}
 		nex := rapid.IntRange(1, 4).Draw(t, "nexecs")
+		usedTests := map[int]bool{}
 		for e := 0; e < nex; e++ {
 			ti := rapid.IntRange(0, ntests-1).Draw(t, "etest")
+			if ho.uniqueExec {
+				if usedTests[ti] {
+					continue
+				}
+				usedTests[ti] = true
+			}
 			prog := c.Tests[ti].Prog
 			ncalls := len(prog)
 			if rapid.IntRange(0, 3).Draw(t, "partial") == 0 {
@@ -216,8 +230,20 @@ func genHistory(t *rapid.T, col *collector, ho histOpts) histCase {
 					}
 				}
 				ex.Calls = append(ex.Calls, ec)
+				if ho.blocked && c.Blocked && rapid.IntRange(0, 7).Draw(t, "blockedcall") == 0 {
+					bc := genSlotCall(t, ProgSlot{API: rapid.SampledFrom([]string{"snap", "json", "yaml"}).Draw(t, "bapi"), Cfg: len(c.Cfgs)}, o, col)
+					ex.Calls = append(ex.Calls, ExecCall{Call: bc})
+				}
+			}
+			if ho.skips && rapid.IntRange(0, 4).Draw(t, "skip") == 0 {
+				cut := rapid.IntRange(0, len(ex.Calls)).Draw(t, "skipat")
+				ex.Calls = append(ex.Calls[:cut:cut], ExecCall{Skip: rapid.SampledFrom([]string{"Skip", "Skipf", "SkipNow"}).Draw(t, "skipkind")})
 			}
 			pr.Execs = append(pr.Execs, ex)
+			if ho.skips && len(ex.Calls) == 1 && ex.Calls[0].Skip != "" && rapid.Bool().Draw(t, "skiptwice") {
+				// a test that skips before any Match* call may run again (as under -count=2): the registry is unaffected
+				pr.Execs = append(pr.Execs, Exec{Test: ex.Test, Calls: []ExecCall{{Skip: ex.Calls[0].Skip}}})
+			}
 		}
 		pr.Steps = genSchedule(t, c, pr.Execs, ho.interleave && rapid.Bool().Draw(t, "interleave"))
 		c.Procs = append(c.Procs, pr)
@@ -299,8 +325,10 @@ func predictOutcome(m Mode, upd *bool, present, equal bool, fail string) string 
 }
 
 type histHooks struct {
-	// afterCall is invoked after every call with the predicted and observed outcome.
-	afterCall func(pi int, test string, ec ExecCall, want, got string, r callResult)
+	// afterCall is invoked after every call with the predicted and observed outcome (ci = -1: blocked directory).
+	afterCall func(pi int, test string, ci int, id string, ec ExecCall, want, got string, r callResult)
+	// afterSkip is invoked after a snaps.Skip* call.
+	afterSkip func(pi int, test string, logs []string)
 	// afterProc is invoked at the end of each process (before the next newProcess).
 	afterProc func(pi int, p Proc, root string) error
 }
@@ -355,6 +383,24 @@ func runHistory(c histCase, hooks histHooks) error {
 			}
 			ec := ex.Calls[next[st.Exec]]
 			next[st.Exec]++
+			if ec.Skip != "" {
+				switch ec.Skip {
+				case "Skipf":
+					Skipf(fts[st.Exec], "skip %s", name)
+				case "SkipNow":
+					SkipNow(fts[st.Exec])
+				default:
+					Skip(fts[st.Exec], "skip")
+				}
+				errs, logs := fts[st.Exec].drain()
+				if len(errs) != 0 {
+					return fmt.Errorf("process %d %s: snaps.%s reported errors %q", pi, name, ec.Skip, clipAll(errs))
+				}
+				if hooks.afterSkip != nil {
+					hooks.afterSkip(pi, name, logs)
+				}
+				continue
+			}
 			ci := ec.Call.Cfg
 			if ci >= len(c.Cfgs) {
 				// the blocked config (C20): directory cannot be created, the call must fail and touch nothing
@@ -368,7 +414,7 @@ func runHistory(c histCase, hooks histHooks) error {
 					return fmt.Errorf("process %d %s: call into a directory that cannot be created ended as %q", pi, name, got)
 				}
 				if hooks.afterCall != nil {
-					hooks.afterCall(pi, name, ec, oFailed, got, r)
+					hooks.afterCall(pi, name, -1, "", ec, oFailed, got, r)
 				}
 				continue
 			}
@@ -385,7 +431,7 @@ func runHistory(c histCase, hooks histHooks) error {
 				return fmt.Errorf("process %d %s call #%d on %s (slot %q): %v", pi, name, k, filepath.Base(m.files[ci]), id, err)
 			}
 			if hooks.afterCall != nil {
-				hooks.afterCall(pi, name, ec, want, got, r)
+				hooks.afterCall(pi, name, ci, id, ec, want, got, r)
 			}
 			if got != want {
 				return fmt.Errorf("process %d (mode %+v) %s call #%d on %s must address slot %q: model predicts %s, observed %s (errors=%q logs=%q); slot held %q, call value %q",
